@@ -69,6 +69,18 @@ def run(ctx: Ctx, rep: Report) -> None:
     # the passes today; the rule proves its matcher on a built-in example)
     from ..rules.optrule import rule_nandom
     rule_nandom(ctx, rep, ('bqskit/passes/', 'bqskit/utils/math.py'), 0)
+    # unitary diagonalisers come from schur / eigh, never from eig
+    from ..rules.optrule import rule_eigunit
+    rule_eigunit(ctx, rep, ('bqskit/passes/', 'bqskit/utils/math.py',
+                            'bqskit/qis/'))
+    # an option a pass accepts is an option the pass reads
+    from ..rules.optlive import rule_optlive
+    rule_optlive(ctx, rep, ('bqskit/passes/',), 150)
+    # index shifts of a two-way scan are applied from the left only
+    from ..rules.optlive import rule_shiftdir
+    rule_shiftdir(ctx, rep, ('bqskit/passes/processing/',), 3)
+    # the option flags of the conversion pass enumerate kinds x targets
+    grid(ctx, rep)
     # a structural pass that re-wraps a block keeps the operation's params
     from ..rules.paramflow import rule_paramflow
     rule_paramflow(
@@ -304,3 +316,60 @@ def eff(ctx: Ctx, rep: Report) -> None:
         'corrected by (original cycles - current cycles) before popping',
         key='shift',
     )
+
+
+def grid(ctx: Ctx, rep: Report) -> None:
+    """GRID: BlockConversionPass has one flag per kind of block (variable,
+    constant, circuit gates) and one branch per (kind, target) pair with
+    kind != target.  The guards `self.convert_<kind> and self.convert_target
+    == '<target>'` must be pairwise different and, for each target, cover
+    every kind but the target itself: a copied guard makes one flag decide
+    two conversions and another none."""
+    G = 'GRID'
+    c = ctx.index.cls('bqskit/passes/util/conversion.py:BlockConversionPass')
+    f = c.methods['run']
+    init = c.methods['__init__']
+    rep.seen(f.qualname)
+    flags = sorted({
+        t.attr for s in ast.walk(init.node) if isinstance(s, ast.Assign)
+        for t in s.targets if isinstance(t, ast.Attribute)
+        and t.attr.startswith('convert_') and t.attr != 'convert_target'
+    })
+    pairs: list[tuple[str, str, int]] = []
+    for s in ast.walk(f.node):
+        if not isinstance(s, ast.If):
+            continue
+        fl = [x.attr for x in ast.walk(s.test) if isinstance(
+            x, ast.Attribute) and x.attr in flags]
+        tg = [
+            k.comparators[0].value for k in ast.walk(s.test)
+            if isinstance(k, ast.Compare) and any(
+                isinstance(x, ast.Attribute) and x.attr == 'convert_target'
+                for x in ast.walk(k.left))
+            and isinstance(k.comparators[0], ast.Constant)
+        ]
+        if len(fl) == 1 and len(tg) == 1:
+            pairs.append((fl[0], tg[0], s.lineno))
+    rep.count()
+    dup = sorted({p[:2] for p in pairs if sum(
+        1 for q in pairs if q[:2] == p[:2]) > 1})
+    targets = sorted({p[1] for p in pairs})
+    missing = [
+        (fl, t) for t in targets for fl in flags
+        if fl != f'convert_{t}' and (fl, t) not in {p[:2] for p in pairs}
+    ]
+    rep.check(
+        len(pairs) >= 4 and not dup and not missing, G,
+        'BlockConversionPass.run', f.path, f.lineno,
+        f'{len(pairs)} guards, one per (kind, target) pair: '
+        + ', '.join(f'{a}->{b}' for a, b, _l in pairs),
+        'BlockConversionPass.run: '
+        + ('; '.join(f'the guard `self.{a} and self.convert_target == '
+                     f'{b!r}` occurs more than once' for a, b in dup))
+        + ('; ' if dup and missing else '')
+        + ('; '.join(f'no branch is guarded by `self.{a}` for target {b!r}'
+                     for a, b in missing))
+        + ': one flag decides two conversions and another none',
+        key='guards',
+    )
+    rep.floor(G, len(pairs), 4, 'conversion branches')
